@@ -255,3 +255,8 @@ def timed_layer(seed: int, n_cases: int) -> Dict[str, Any]:
 def shift_layer(seed: int, n_cases: int) -> Dict[str, Any]:
     """shift tables and human drivers through the real driver phase and dispatcher (C20)"""
     return generic_layer("shift", "shift", seed, n_cases, 86028121)
+
+
+def cosim_layer(seed: int, n_cases: int) -> Dict[str, Any]:
+    """packaged scenarios advanced by split co-simulation calls, one call, the batch runner and single steps (C15)"""
+    return generic_layer("cosim", "cosim", seed, n_cases, 67867979)
